@@ -45,7 +45,8 @@ def _classify(line, bad):
         k = e[0]
         if i == bad:
             if closed:
-                return "second-close" if k == "C" else "call-after-close"
+                # "call-after-close" is reserved for a READ after close (F-C20-2 in the two reader-race scenarios)
+                return {"C": "second-close", "R": "call-after-close", "L": "len-after-close"}.get(k, "mutation-after-close")
             if ro and k in "WSY":
                 return "read-only-mutation"
             if k in "RW":
@@ -99,6 +100,9 @@ def evaluate(ctx, label=""):
                 # made shorter.  The same read in an open that succeeds gets its own key.
                 if key == "c20-read-beyond-len-open-bad-length" and '"outcome":"ok"' in m:
                     key += "-but-opened"
+                # F-C20-2 (known finding) is only: a read by ANOTHER thread that began after close() returned
+                if viol == "call-after-close" and '"first_call_after_close_by_closing_thread":true' in m:
+                    key = key.replace("call-after-close", "closing-thread-read-after-close")
                 ctx.violation(key, what,
                               {"scenario": m, "trace": _trace_excerpt(c, bad), "model_verdict": b,
                                "how_to_replay": "VERIF_SEED=%d ./check C20 --tier %s (harness/src/bin/c20.rs regenerates the scenario from the seed)" % (ctx.seed, ctx.tier)})
